@@ -95,6 +95,7 @@ type c17H struct {
 	src   *c17Src
 	nsrc  int
 	ntgt  int
+	leaks int // refused in-process starts / exports (their database handles are never closed by the code)
 	fastT bool
 }
 
@@ -1312,6 +1313,9 @@ func (h *c17H) runCase(ops []string, class string) error {
 			}
 			res := "ok"
 			if err != nil {
+				if src.zones == nil {
+					h.leaks++
+				}
 				res = "err"
 				if strings.HasPrefix(err.Error(), "PANIC") {
 					res = "panic"
